@@ -41,6 +41,57 @@ def h_init_cdb(ctx):
         ctx.check("only groups 3, 6, 7 and out-of-range codes are refused", ctx.oracle(~fixed if not isinstance(fixed, bool) else not fixed))
 
 
+def h_opcode_object(ctx):
+    """init_cdb follows the *current* value of a real OpCode object (value is a public, settable property)"""
+    from pyscsi.pyscsi.scsi_command import SCSICommand
+    from pyscsi.pyscsi.scsi_opcode import OpCode
+
+    def expect(tag, op, v):
+        st, r = ctx.attempt(SCSICommand.init_cdb, op)
+        g = v >> 5
+        fixed = (g == 0) | (g == 1) | (g == 2) | (g == 4) | (g == 5)
+        if st == "ok":
+            n = len(r)
+            want = (g == 0) & (n == 6) | ((g == 1) | (g == 2)) & (n == 10) | (g == 4) & (n == 16) | (g == 5) & (n == 12)
+            ctx.check(tag + ": CDB length follows the group of the current value", ctx.oracle(want))
+        else:
+            ctx.check(tag + ": only codes without a fixed length are refused", ctx.oracle(~fixed if not isinstance(fixed, bool) else not fixed))
+    v1, v2 = ctx.int("v1", 8), ctx.int("v2", 8)
+    op = OpCode("X", v1, {})
+    expect("first use", op, v1)
+    op.value = v2
+    expect("after op.value = v2", op, v2)
+    ctx.check("the value property reports what was set", op.value == ctx.oracle(v2))
+
+
+def h_exposed_names(ctx, set_name):
+    """a standard command name a command set answers to -- listed key or not -- carries the T10 value of that name"""
+    st = _lib_set(set_name)
+    union = {}
+    for sname, table in T.SETS.items():
+        for n, v in table.items():
+            union.setdefault(n, set()).add(v)
+    bad = []
+    n_exposed = 0
+    for name in sorted(union):
+        try:
+            op = getattr(st, name)
+        except AttributeError:
+            continue
+        except Exception as e:  # noqa
+            bad.append("%s: %r" % (name, e))
+            continue
+        n_exposed += 1
+        val = getattr(op, "value", op)
+        ok = val == T.SETS[set_name][name] if name in T.SETS[set_name] else val in union[name]
+        if not ok:
+            bad.append("%s.%s = %#x (T10: %s)" % (set_name, name, val, sorted(hex(x) for x in union[name])))
+    ctx.note("exposed_" + set_name, n_exposed)
+    ctx.check("every standard name %s answers to has the T10 value (%d names)" % (set_name, n_exposed), ctx.oracle(not bad), str(bad[:4]))
+    ctx.check("names the set does not list are not invented", set(k for k in union if hasattr(st, k)) <= set(st.keys) | set(), str(
+        sorted(set(k for k in union if hasattr(st, k)) - set(st.keys))[:5]))
+
+
 def _lib_set(name):
     import pyscsi.pyscsi.scsi_enum_command as ec
     return getattr(ec, name)
@@ -138,7 +189,9 @@ def h_status(ctx):
 
 def obligations(tier):
     from symx.harness import Ob
-    obs = [Ob("init_cdb/symbolic-opcode", MOD, "h_init_cdb", {})]
+    obs = [Ob("init_cdb/symbolic-opcode", MOD, "h_init_cdb", {}), Ob("init_cdb/opcode-object-revalued", MOD, "h_opcode_object", {})]
+    for s in SETNAMES:
+        obs.append(Ob("exposed-names/%s" % s, MOD, "h_exposed_names", {"set_name": s}))
     for s in SETNAMES:
         obs.append(Ob("opcodes/%s" % s, MOD, "h_table", {"set_name": s}))
         obs.append(Ob("service-actions/%s" % s, MOD, "h_service_actions", {"set_name": s}))
